@@ -252,6 +252,15 @@ pub fn emit_roundtrip(out: &mut Out, ety: u64, transport: u64, rk: u64, c: u64, 
                 match rk {
                     0 => { if let Some(b) = report(&t, roundtrip(&t, transport), &mut obs) { obs.push(b.data().len() as u64); obs.extend(b.data().iter().map(|x| *x as u64)); } }
                     1 => { let v = t.view(s, e); let expect = TooDee::from(v); if let Some(b) = report(&expect, via(&v, transport), &mut obs) { obs.push(b.data().len() as u64); obs.extend(b.data().iter().map(|x| *x as u64)); } }
+                    // views built directly over a slice that is longer than the array needs
+                    // (rk 3 / 4: one spare cell, rk 5 / 6: a spare row's worth)
+                    3 | 4 | 5 | 6 => {
+                        let spare = if rk <= 4 { 1 } else { cu.max(1) };
+                        let mut buf: Vec<u32> = (0..(n + spare) as u32).collect();
+                        let expect = TooDee::from_vec(cu, ru, (0..n as u32).collect());
+                        let back = if rk % 2 == 1 { let v = TooDeeView::new(cu, ru, &buf); via(&v, transport) } else { let v = TooDeeViewMut::new(cu, ru, &mut buf); via(&v, transport) };
+                        if let Some(b) = report(&expect, back, &mut obs) { obs.push(b.data().len() as u64); obs.extend(b.data().iter().map(|x| *x as u64)); }
+                    }
                     _ => { let expect = TooDee::from(t.view(s, e)); let v = t.view_mut(s, e); if let Some(b) = report(&expect, via(&v, transport), &mut obs) { obs.push(b.data().len() as u64); obs.extend(b.data().iter().map(|x| *x as u64)); } }
                 }
             }
@@ -281,6 +290,7 @@ pub fn gen_c18(out: &mut Out, tier: &str, _rng: &mut Rng) {
                 if tier == "quick" && (c * r > 9) && ((s0 + s1 + e0 + e1 + tr) % 4 != 0) { continue; }
                 for rk in [1, 2] { emit_roundtrip(out, 0, tr, rk, c, r, (s0, s1, e0, e1)); }
             } } } }
+            for rk in [3, 4, 5, 6] { emit_roundtrip(out, 0, tr, rk, c, r, (0, 0, c, r)); }
         }
     }
     gen_c18_large(out, tier);
@@ -300,6 +310,7 @@ pub fn gen_c18_large(out: &mut Out, tier: &str) {
             if c > 1 { wins.push((1, 0, c, r)); }
             if r > 1 { wins.push((0, 0, c, r - 1)); }
             for w in wins { for rk in [1, 2] { emit_roundtrip(out, 0, tr, rk, c, r, w); } }
+            for rk in [3, 4, 5, 6] { emit_roundtrip(out, 0, tr, rk, c, r, (0, 0, c, r)); }
         }
     }
 }
